@@ -249,8 +249,7 @@ func (nullPC) SetWriteDeadline(t time.Time) error        { return nil }
 // deadline, not before it.
 func VH_udp_deadline() {
 	to := timeouts()
-	closeCh := make(chan string, 10)
-	pc := layer4.VerifNewPacketConn(nullPC{}, &net.UDPAddr{IP: net.IP{10, 0, 0, 2}, Port: 5353}, closeCh)
+	pc := layer4.VerifNewPacketConn(nullPC{}, &net.UDPAddr{IP: net.IP{10, 0, 0, 2}, Port: 5353})
 	pre := []time.Duration{0, 300 * time.Microsecond}[vapi.Choice("pre", 2)]
 	t0 := vapi.Elapsed()
 	_ = pc.SetReadDeadline(time.Now().Add(to))
@@ -271,8 +270,7 @@ func VH_udp_deadline() {
 // some delay) fires at the later instant - not at the first one, not at the idle timeout.
 func VH_udp_rearm() {
 	to := timeouts()
-	closeCh := make(chan string, 10)
-	pc := layer4.VerifNewPacketConn(nullPC{}, &net.UDPAddr{IP: net.IP{10, 0, 0, 2}, Port: 5353}, closeCh)
+	pc := layer4.VerifNewPacketConn(nullPC{}, &net.UDPAddr{IP: net.IP{10, 0, 0, 2}, Port: 5353})
 	t0 := vapi.Elapsed()
 	_ = pc.SetReadDeadline(time.Now().Add(to))
 	gap := to / 2
@@ -289,8 +287,7 @@ func VH_udp_rearm() {
 // VH_udp_data: data that is already queued is delivered even with a deadline armed.
 func VH_udp_data() {
 	to := timeouts()
-	closeCh := make(chan string, 10)
-	pc := layer4.VerifNewPacketConn(nullPC{}, &net.UDPAddr{IP: net.IP{10, 0, 0, 2}, Port: 5353}, closeCh)
+	pc := layer4.VerifNewPacketConn(nullPC{}, &net.UDPAddr{IP: net.IP{10, 0, 0, 2}, Port: 5353})
 	d := vapi.Bytes("D", 32)
 	vapi.Assume(len(d) > 0)
 	layer4.VerifPacketConnFeed(pc, d)
